@@ -134,7 +134,7 @@ class _SimTaskQueue:
 
 class _Worker:
     __slots__ = ('wid', 'speed', 'state', 'task', 'free_at', 'finish_at', 'started_seq',
-                 'completed', 'blocked_until', 'initialized')
+                 'completed', 'blocked_until', 'initialized', 'proc')
 
     def __init__(self, wid, speed, free_at):
         self.wid = wid
@@ -147,6 +147,90 @@ class _Worker:
         self.completed = 0
         self.blocked_until = 0
         self.initialized = False
+        self.proc = None
+
+
+class _WorkerProcess:
+    """A simulated worker backed by a real forked process (cfg['workers'] == 'forked'): forked
+    when the pool (or a replacement worker) is created, like the real Pool does, so that it
+    sees the parent's module state of *that moment* and nothing it does afterwards is visible
+    to the parent or to other workers. It is parked on a pipe and runs exactly one task when
+    the scheduler fires its `finish` event - who runs when is still decided by the tape."""
+
+    def __init__(self, pool):
+        import os
+        sim = pool._sim
+        req_r, req_w = os.pipe()
+        res_r, res_w = os.pipe()
+        pid = os.fork()
+        if pid == 0:
+            code = 0
+            try:
+                os.close(req_w)
+                os.close(res_r)
+                for p in sim.pools + [pool]:
+                    for w in getattr(p, '_pool', []):
+                        if getattr(w, 'proc', None) is not None:
+                            w.proc._close_fds()
+                sim.in_worker += 1            # nested pools raise, call seams stay quiet
+                import sys as _sys
+                _sys.settrace(None)
+                from . import pristine
+                if pool._initializer is not None:
+                    pool._initializer(*pool._initargs)
+                while True:
+                    try:
+                        msg = pristine._read_msg(req_r)
+                    except EOFError:
+                        break
+                    pristine._write_msg(res_w, _run_task(pool, msg))
+            except BaseException:
+                code = 1
+            finally:
+                os._exit(code)
+        os.close(req_r)
+        os.close(res_w)
+        self.pid, self._w, self._r = pid, req_w, res_r
+
+    def run(self, blob):
+        from . import pristine
+        pristine._write_msg(self._w, blob)
+        try:
+            return pristine._read_msg(self._r)
+        except EOFError:
+            raise RuntimeError('simulated worker process %d died while running a task' % self.pid)
+
+    def _close_fds(self):
+        import os
+        for fd in (self._w, self._r):
+            try:
+                os.close(fd)
+            except OSError:
+                pass
+
+    def close(self):
+        import os
+        self._close_fds()
+        try:
+            os.waitpid(self.pid, 0)
+        except OSError:
+            pass
+
+
+def _run_task(pool, blob):
+    """What multiprocessing.pool.worker does for one task: unpickle, run, pickle the result."""
+    job_, i, func, args, kwds = pool._loads(blob)
+    try:
+        result = (True, func(*args, **kwds))
+    except Exception as e:
+        if pool._wrap_exception and func is not mpp._helper_reraises_exception:
+            e = mpp.ExceptionWithTraceback(e, e.__traceback__)
+        result = (False, e)
+    try:
+        return pool._dumps((job_, i, result))
+    except Exception as e:
+        wrapped = mpp.MaybeEncodingError(e, result[1])
+        return pool._dumps((job_, i, (False, wrapped)))
 
 
 class SimPool(mpp.Pool):
@@ -215,7 +299,12 @@ class SimPool(mpp.Pool):
         self._next_wid += 1
         speed = sim.worker_speed(wid)
         free_at = sim.now + delay + sim.start_skew(wid)
-        return _Worker(wid, speed, free_at)
+        w = _Worker(wid, speed, free_at)
+        if self._use_pickle and sim.cfg.get('workers') == 'forked':
+            w.proc = _WorkerProcess(self)
+            w.initialized = True
+            sim.stats['forked_worker_processes'] += 1
+        return w
 
     def __del__(self):
         pass
@@ -242,6 +331,9 @@ class SimPool(mpp.Pool):
             for w in self._pool:
                 w.state = 'dead'
                 w.task = None
+                if w.proc is not None:
+                    w.proc.close()
+                    w.proc = None
 
     def join(self):
         if self._state == RUN:
@@ -557,22 +649,16 @@ class Sim:
 
     def _do_finish(self, p, w):
         blob, job, idx = w.task
-        job_, i, func, args, kwds = p._loads(blob)
-        self.in_worker += 1
-        try:
+        if w.proc is not None:
+            rblob = w.proc.run(blob)
+            ok = p._loads(rblob)[2][0]
+        else:
+            self.in_worker += 1
             try:
-                result = (True, func(*args, **kwds))
-            except Exception as e:
-                if p._wrap_exception and func is not mpp._helper_reraises_exception:
-                    e = mpp.ExceptionWithTraceback(e, e.__traceback__)
-                result = (False, e)
-        finally:
-            self.in_worker -= 1
-        try:
-            rblob = p._dumps((job_, i, result))
-        except Exception as e:
-            wrapped = mpp.MaybeEncodingError(e, result[1])
-            rblob = p._dumps((job_, i, (False, wrapped)))
+                rblob = _run_task(p, blob)
+            finally:
+                self.in_worker -= 1
+            ok = p._loads(rblob)[2][0] if p._use_pickle else rblob[2][0]
         lat = 0.0
         rl = self.faults.get('result_latency')
         if rl and self.mode == 'timed':
@@ -586,7 +672,7 @@ class Sim:
         w.completed += 1
         w.free_at = self.now
         self.stats['tasks_run'] += 1
-        self.logev('finish', p._ordinal, w.wid, p._job_ordinal.get(job), idx, result[0])
+        self.logev('finish', p._ordinal, w.wid, p._job_ordinal.get(job), idx, ok)
         recycle = False
         if p._maxtasksperchild and w.completed >= p._maxtasksperchild:
             recycle = True
@@ -596,6 +682,9 @@ class Sim:
             self.stats['fault.idle_recycle'] += 1
         if recycle:
             k = p._pool.index(w)
+            if w.proc is not None:
+                w.proc.close()
+                w.proc = None
             nw = p._new_worker(delay=self.cfg.get('respawn_ms', 30.0))
             nw.blocked_until = self.steps + 3
             p._pool[k] = nw
@@ -617,6 +706,10 @@ class Sim:
     def finish_run(self):
         for p in self.pools:
             self.pool_finished(p)
+            for w in p._pool:
+                if getattr(w, 'proc', None) is not None:
+                    w.proc.close()
+                    w.proc = None
 
     def schedule_signature(self):
         """Abstract interleaving: the sequence of (event kind, job, index) with worker ids dropped."""
@@ -669,6 +762,10 @@ class Installed:
         self._set(os, 'cpu_count', cpu_count)
         if hasattr(os, 'process_cpu_count'):
             self._set(os, 'process_cpu_count', cpu_count)
+        from . import simexec
+        binds, exec_map = simexec.bindings(sim)
+        for obj, attr, repl in binds:
+            self._set(obj, attr, repl)
         for name, mod in sorted(sys.modules.items()):
             if mod is None or not (name == 'bycycle' or name.startswith('bycycle.')):
                 continue
@@ -677,6 +774,8 @@ class Installed:
                     self._set(mod, attr, pool_factory)
                 elif _same(val, _ORIG_THREADPOOL_CLASS):
                     self._set(mod, attr, ThreadPool)
+                elif isinstance(val, type) and id(val) in exec_map:
+                    self._set(mod, attr, exec_map[id(val)])
                 elif _same(val, _ORIG_CPU_COUNT) or _same(val, _ORIG_OS_CPU_COUNT):
                     self._set(mod, attr, cpu_count)
         return self
